@@ -30,12 +30,12 @@ def L(rx):
 SIGMA = A.sigma_star
 LANG = {
     'text': lambda: SIGMA(),
-    'fmt6': lambda: L(r'-?\d+\.\d{6}'),                                            # A-fl(3): '%f' % finite float
-    'repr_float': lambda: L(r'-?(\d+\.\d+|\d+(\.\d+)?e[+-]\d+)'),                # A-fl(1): repr/str of a finite float
-    'repr_int': lambda: L(r'-?\d+'),                                              # A-fl(5)
-    'iso_date': lambda: L(r'\d{4}-\d{2}-\d{2}'),                                  # A-tz: date.isoformat(), years 1000..9999 zero padded
-    'iso_time': lambda: L(r'\d{2}:\d{2}:\d{2}(\.\d{6})?'),                        # A-tz: naive time.isoformat()
-    'iso_datetime': lambda: L(r'\d{4}-\d{2}-\d{2}T\d{2}:\d{2}:\d{2}(\.\d{6})?[+-]\d{2}:\d{2}'),   # aware datetime.isoformat(), whole-minute offset (pytz / iso8601 tzinfo)
+    'fmt6': lambda: L(r'-?[0-9]+\.[0-9]{6}'),                                            # A-fl(3): '%f' % finite float
+    'repr_float': lambda: L(r'-?([0-9]+\.[0-9]+|[0-9]+(\.[0-9]+)?e[+-][0-9]+)'),                # A-fl(1): repr/str of a finite float
+    'repr_int': lambda: L(r'-?[0-9]+'),                                              # A-fl(5)
+    'iso_date': lambda: L(r'[0-9]{4}-[0-9]{2}-[0-9]{2}'),                                  # A-tz: date.isoformat(), years 1000..9999 zero padded
+    'iso_time': lambda: L(r'[0-9]{2}:[0-9]{2}:[0-9]{2}(\.[0-9]{6})?'),                        # A-tz: naive time.isoformat()
+    'iso_datetime': lambda: L(r'[0-9]{4}-[0-9]{2}-[0-9]{2}T[0-9]{2}:[0-9]{2}:[0-9]{2}(\.[0-9]{6})?[+-][0-9]{2}:[0-9]{2}'),   # aware datetime.isoformat(), whole-minute offset (pytz / iso8601 tzinfo)
     'refname': lambda: L(r'[a-zA-Z0-9_:\-.~]+'),
     'unit': lambda: L(r'([a-zA-Z%_/$]|[\u0080-￿])+'),
     'xtype': lambda: L(r'[A-Z][a-zA-Z0-9_]*'),
@@ -141,6 +141,30 @@ def install(world):
             return Lit('%f' % v)
         it.raise_('TypeError', 'must be real number')
     plug.fmt['f'] = fmt_f
+
+    def fmt_04x(it, v):
+        # '%04x' % o: lower-case hex, at least 4 digits
+        from hv.vc.values import SInt
+        if isinstance(v, int):
+            return Lit('%04x' % v)
+        if isinstance(v, SInt):
+            if it.ctx.branch(z3.And(v.term >= 0, v.term <= 0xFFFF)):
+                return Field('hex4(%s)' % v.term, L(r'[0-9a-f]{4}'), 'hex4', v.term, fixed_len=4)
+            return Field('hexN(%s)' % v.term, L(r'[0-9a-f]{5,6}'), 'hexN', v.term)
+        raise OutOfSubset('%%04x of %r' % (v,))
+    plug.fmt['04x'] = fmt_04x
+
+    def b_ord(it, args, kw):
+        from hv.vc.shapes import CharField
+        from hv.vc.values import SInt
+        x = args[0]
+        if isinstance(x, Shape) and len(x.parts) == 1 and isinstance(x.parts[0], CharField):
+            d = x.parts[0].den
+            return d if isinstance(d, int) else SInt(d)
+        if isinstance(x, Shape) and x.concrete() is not None and len(x.concrete()) == 1:
+            return ord(x.concrete())
+        raise OutOfSubset('ord of %r' % (x,))
+    world.hooks['builtin_ord'] = b_ord
 
     def fmt_s(it, v):
         r = str_of(it, v)
